@@ -2,6 +2,7 @@
    Only statements, each closed by [exact] of a lemma of Proofs/Lifetime_proofs.v.
    Time: nanoseconds (Z) for instants, whole seconds for token claims. *)
 From Relay Require Import Base.Prelude Model.Lifetime Proofs.Lifetime_proofs.
+From Relay Require Base.AList Model.Resources Proofs.Resources_proofs.
 Open Scope Z_scope.
 
 (* for every admission instant t and expiry E, up to the largest lifetime a Duration can hold:
@@ -73,6 +74,51 @@ Theorem C06_unanswered_pings_dropped :
     status (run (start t f) (pings_only (t + ping_period) k) h) = Closed ReadTimeout (t + pong_wait).
 Proof. exact unanswered_dropped. Qed.
 Print Assumptions C06_unanswered_pings_dropped.
+
+(* the last sentence of the property, end to end: a connection accepted at t with a token
+   expiring at E (any lifetime a Duration can hold) whose client keeps answering pings - whatever
+   else it sends, however long it idles - is ended by the relay only by the expiry timer, at an
+   instant in [E, E + 1 s): never before E *)
+Theorem C06_not_ended_before_expiry :
+  forall t tok f evs h,
+    ws_accept t tok true = Accepted f -> exp tok - floor_s t <= max_ttl ->
+    timely (t + ping_period) None (evs ++ [(EDataIn, h)]) = true ->
+    match status (run (start t f) evs h) with
+    | Open => True
+    | Closed r a => r = Expiry /\ exp tok * ns_per_s <= a < (exp tok + 1) * ns_per_s
+    end.
+Proof. exact not_ended_before_expiry. Qed.
+Print Assumptions C06_not_ended_before_expiry.
+
+Example C06_not_ended_before_expiry_nonvacuous :
+  let t := 1700000000300000000 in
+  let evs := [(EDataOut, t + ns_per_s); (EPongUnsolicited, t + 2 * ns_per_s); (EClientPing, t + 3 * ns_per_s);
+              (EPing, t + ping_period); (EPong, t + ping_period + 1000000); (EDataIn, t + 58 * ns_per_s)] in
+  ws_accept t (mktoken 1699999999 1700000059) true = Accepted (1700000059300000000) /\
+  timely (t + ping_period) None (evs ++ [(EDataIn, t + 61 * ns_per_s)]) = true /\
+  status (run (start t 1700000059300000000) evs (t + 58 * ns_per_s)) = Open /\
+  status (run (start t 1700000059300000000) evs (t + 61 * ns_per_s)) = Closed Expiry 1700000059300000000.
+Proof. vm_compute. repeat split. Qed.
+
+(* "nothing is relayed to or from it afterwards": in the resource model of the hub (Model/Resources.v,
+   the C13 machine) a connection that has ended - by Expiry or for any other reason - has, once its
+   goroutines took their next steps, no reader any more (readPump is the only thing that hands a
+   client's messages to the hub) and is in no fan-out set of any topic for any sender *)
+Theorem C06_nothing_relayed_after_close :
+  forall h id c,
+    AList.lookup N.eqb id (Resources.run h) = Some c -> Resources.joined c = true -> Resources.ended c = true ->
+    Resources.h_reader (Resources.settle c) = false /\
+    forall tp sender, ~ In id (Resources.fanout (Resources.settle_all (Resources.run h)) tp sender).
+Proof. exact Resources_proofs.nothing_relayed_after_end. Qed.
+Print Assumptions C06_nothing_relayed_after_close.
+
+Example C06_nothing_relayed_after_close_nonvacuous :
+  let h := [Resources.EConnect 1 Resources.Join 7 true; Resources.EConnect 2 Resources.Join 7 true;
+            Resources.EEnd 1 Resources.Expiry]%N in
+  Resources.fanout (Resources.run h) 7%N 2%N = [1%N] /\
+  Resources.fanout (Resources.settle_all (Resources.run h)) 7%N 2%N = [] /\
+  Resources.fanout (Resources.settle_all (Resources.run h)) 7%N 1%N = [2%N].
+Proof. vm_compute. repeat split. Qed.
 
 (* F12a. The multiplication as it was written before the repair, time.Duration(ttl) * time.Second
    without the clamp, wraps int64 from E - floor t = 9 223 372 037 on: a valid far-future token
